@@ -343,3 +343,119 @@ def mt_case_history(cid, rng, nv=None, length=60, slots=20, cache=None, reorder=
             ops.append("ORDER " + " ".join(map(str, vs[: rng.randrange(2, nv + 1)])))
     ops += ["DROPALL", "GC", "SNAP"]
     return (header(cid, "mtbdd", cap=1 << 14, cache=cache, threads=threads, snap_each=True), ops)
+
+
+# ---- MTBDD<F64> (harness kind "mtbddf"): values are 16-digit hex bit patterns -------------------
+# +0, 1, -1, 0.5, 3, -7, max finite, min subnormal, +inf, -inf, NaN; -0.0 and a NaN with payload only as
+# INPUT (F64::from normalises them to +0.0 / the canonical NaN)
+MTF_VALUES = ["0000000000000000", "3ff0000000000000", "bff0000000000000", "3fe0000000000000",
+              "4008000000000000", "c01c000000000000", "7fefffffffffffff", "0000000000000001",
+              "7ff0000000000000", "fff0000000000000", "7ff8000000000000"]
+MTF_INPUT_ONLY = ["8000000000000000", "7ff0000000000001", "fff8000000000123"]
+
+
+def mtf_case_pairs_1var(cid, op, order_swapped=False, lo=0, hi=None):
+    """the 121 functions of one variable over MTF_VALUES (2-variable manager): ordered pairs (i, j) with
+    lo <= i < hi under one operator; produces -0.0 and hardware NaNs inside the operations (0/-1, -1/+inf,
+    0/0, inf/inf, inf-inf, 0*inf, ...)"""
+    ops = ["VARS 2"]
+    if order_swapped:
+        ops.append("ORDER 1 0")
+    fs = [(a, b) for a in MTF_VALUES for b in MTF_VALUES]
+    hi = len(fs) if hi is None else hi
+    for i, (a, b) in enumerate(fs):
+        ops.append(f"VT h{i} 1 {a} {b}")
+    # un-normalised inputs: must denote the same functions as their normalised counterparts
+    for j, v in enumerate(MTF_INPUT_ONLY):
+        ops.append(f"VT h{500 + j} 1 {v} {MTF_VALUES[1]}")
+    ops.append("SNAP")
+    k = 1000
+    for i in range(lo, hi):
+        for j in range(len(fs)):
+            ops.append(f"{op} h{k} h{i} h{j}")
+            k += 1
+    ops.append("SNAP")
+    ops += ["GC", "SNAP"]
+    return (header(cid, "mtbddf"), ops)
+
+
+def mtf_rand_vt(rng, nv):
+    style = rng.randrange(4)
+    n = 1 << nv
+    if style == 0:
+        return [rng.choice(MTF_VALUES + MTF_INPUT_ONLY[:1]) for _ in range(n)]
+    if style == 1:  # 0-1 valued (condition-like)
+        return [rng.choice([MTF_VALUES[0], MTF_VALUES[1]]) for _ in range(n)]
+    if style == 2:  # few distinct values, shared sub-diagrams
+        vs = rng.sample(MTF_VALUES, 2)
+        return [rng.choice(vs) for _ in range(n)]
+    v = rng.choice(MTF_VALUES)  # almost constant
+    t = [v] * n
+    t[rng.randrange(n)] = rng.choice(MTF_VALUES)
+    return t
+
+
+def mtf_case_history(cid, rng, nv=None, length=60, slots=20, cache=None, reorder=True, threads=1):
+    """mt_case_history for F64 terminals"""
+    nv = nv or rng.randrange(1, 5)
+    cache = cache if cache is not None else rng.choice([1, 2, 16, 1 << 10])
+    ops = [f"VARS {nv}"]
+    live = set()
+    conds = set()
+    zero_one = (MTF_VALUES[0], MTF_VALUES[1])
+
+    def pick():
+        return rng.choice(sorted(live))
+
+    for _ in range(length):
+        r = rng.random()
+        d = rng.randrange(slots)
+        if len(live) < 3 or r < 0.2:
+            t = mtf_rand_vt(rng, nv)
+            ops.append(f"VT h{d} {nv} " + " ".join(t))
+            live.add(d)
+            if all(x in zero_one for x in t):
+                conds.add(d)
+            else:
+                conds.discard(d)
+        elif r < 0.25:
+            ops.append(f"CONSTN h{d} {rng.choice(MTF_VALUES + MTF_INPUT_ONLY)}")
+            live.add(d); conds.discard(d)
+        elif r < 0.30:
+            ops.append(f"VAR h{d} {rng.randrange(nv)}")
+            live.add(d); conds.add(d)
+        elif r < 0.66:
+            a, b = pick(), pick()
+            seq = rng.sample(MT_OPS, rng.randrange(1, 4))
+            for o in seq:
+                dd = rng.randrange(slots)
+                ops.append(f"{o} h{dd} h{a} h{b}")
+                live.add(dd); conds.discard(dd)
+                if dd in (a, b):
+                    break
+        elif r < 0.72 and conds & live:
+            c = rng.choice(sorted(conds & live))
+            ops.append(f"ITE h{d} h{c} h{pick()} h{pick()}")
+            live.add(d); conds.discard(d)
+        elif r < 0.78:
+            pos = rng.randrange(1 << nv)
+            neg = rng.randrange(1 << nv) & ~pos
+            ops.append(f"RESTRICT h{d} h{pick()} {pos} {neg}")
+            live.add(d); conds.discard(d)
+        elif r < 0.82:
+            ops.append(f"EVAL h{pick()}")
+        elif r < 0.85:
+            ops.append(f"EQ h{pick()} h{pick()}")
+        elif r < 0.87:
+            ops.append(f"NC h{pick()}")
+        elif r < 0.91:
+            a = pick()
+            ops.append(f"DROP h{a}")
+            live.discard(a); conds.discard(a)
+        elif r < 0.95:
+            ops.append("GC")
+        elif reorder and nv >= 2:
+            vs = list(range(nv)); rng.shuffle(vs)
+            ops.append("ORDER " + " ".join(map(str, vs[: rng.randrange(2, nv + 1)])))
+    ops += ["DROPALL", "GC", "SNAP"]
+    return (header(cid, "mtbddf", cap=1 << 14, cache=cache, threads=threads, snap_each=True), ops)
